@@ -1,5 +1,13 @@
 """C12 — see DESIGN.md section 3."""
 from common import *  # H, RTPS_SHIM_FILES, ENV_INJECT, ENV_STUBS
+import copy
+from mr_harnesses import MR_INJECT, MR_HARNESSES_C12, MR_ASSUMPTIONS
+
+# SPDP liveness plumbing in the real MessageReceiver (harness/mr.rs): three instances in the quick tier
+_MR_QUICK = {"c12_mr_liveness_unknown_reader", "c12_mr_liveness_duplicate_unknown_reader", "c12_mr_liveness_other_writer_explicit"}
+_MR = copy.deepcopy(MR_HARNESSES_C12)
+for _h in _MR:
+    _h["tier"] = "quick" if _h["name"] in _MR_QUICK else "thorough"
 
 # ------------------------------------------------------------------------------- C12
 _l = "discovery::discovery_db::verif_harness_lease"
@@ -10,7 +18,7 @@ _FAM = ("whole seconds free (< 2^31), sub-second part from the family (the 62-bi
 PROP = {
     "title": "a silent participant is dropped after its lease, a live one never",
     "design_ref": "DESIGN.md section 3, C12",
-    "inject": dict(ENV_INJECT, **{"src/discovery/discovery_db.rs": ["lease", "c11_db"]}),
+    "inject": dict(MR_INJECT, **{"src/discovery/discovery_db.rs": ["lease", "c11_db"]}),
     "shim_files": RTPS_SHIM_FILES + ["src/structure/sequence_number.rs", "src/rtps/message.rs"],
     # <= 2 live entries per DiscoveryDB map (1-2 participants, 1 reader + 1 writer each)
     "cap": {"quick": 2, "thorough": 2},
@@ -64,7 +72,7 @@ PROP = {
         H("c12_timeout_unmatches_only_the_lost_participant", _l,
           "two participants (leases 1 s / 10 s): exactly the silent one is reported and exactly its endpoints leave the query results",
           "concrete instants", tier="thorough", timeout=2400),
-    ],
+    ] + _MR,
     "bounds": {"unwind": 3, "CAP": "2 live entries per DiscoveryDB map",
                "time": "instants within 2^31 s of the first one, 1 ns resolution (uninterpreted from_std) or sub-second families (real from_std)",
                "lease": "absent or any 64-bit Duration_t",
@@ -72,7 +80,7 @@ PROP = {
     "outside": [
         "silence >= 2^31 s (68 years): `as_secs() as i32` in from_std wraps negative, such a participant would never expire (witnessed by a cover in c12_from_std_seconds, outside the stated bound)",
         "sub-second values outside the five families when the REAL from_std is in the loop (covered at 1 ns only with from_std uninterpreted)",
-        "the discovery thread's timers and the spdp_liveness channel plumbing in message_receiver.rs / discovery.rs (threads)",
+        "the discovery thread's timers and the receiving end of the spdp_liveness channel in discovery.rs (threads); the SENDING end in MessageReceiver::handle_writer_submessage is decided (c12_mr_liveness_*)",
         "a dispose arriving for a participant that already timed out (its endpoints stay in the attic and come back on reappearance — not asserted either way)",
         "quick tier: the endpoint half of the TIME-OUT path (attic move / restore) — the harnesses exist (thorough) but did not finish within 300-400 s on this box; the dispose path is decided",
     ],
@@ -82,10 +90,10 @@ PROP = {
         "stub: mio_source::make_poll_channel / PollEventSender::send / PollEventSource::drain, std::fmt::format (environment)",
         "native replay has no clock stub: the schedule is reproduced by back-dating DiscoveryDB::participant_last_life_signs; the real clock adds some 100 ns, so a counterexample exactly on the lease boundary may not reproduce (would be UNDECIDED, never a false VIOLATION)",
         "endpoints 'already learned' are inserted into external_topic_readers/writers directly (where update_subscription/update_publication put them)",
-    ],
+    ] + [a for a in MR_ASSUMPTIONS if a not in ENV_STUBS],
     "trusted": ["/verif/shim/collections.rs (BTreeMap stand-in)", "/verif/harness/env_mio.rs (poll channel stand-in)"],
     "explanation": ("C12: DiscoveryDB::{participant_cleanup, participant_is_alive, update_participant, remove_participant} and "
-                    "Duration::{from_std, Ord, Add} with the clock as a symbolic variable. Tolerance, decided: the comparison is made in RTPS ticks and "
+                    "Duration::{from_std, Ord, Add} with the clock as a symbolic variable; MessageReceiver::handle_submessage -> handle_writer_submessage for the SPDP liveness signal (every SPDP DATA, also a repeated one and one addressed to ENTITYID_UNKNOWN, is a sign of life carrying the source prefix; DATA of other writers is not). Tolerance, decided: the comparison is made in RTPS ticks and "
                     "from_std rounds DOWN by less than one tick, so dropped => silence > lease, kept => silence < lease + 2^-32 s (0.233 ns)."),
     "technique": "Kani/CBMC bounded symbolic model checking of the real DiscoveryDB with Instant::now stubbed by a symbolic clock",
     "level_text": ("SAT-solver verdict over all lease values (full 64-bit width) and all instants inside the stated time bound; "
